@@ -254,6 +254,14 @@ func c14app(st *c14stats) (out []*c12result) {
 			fail := func(sig, f string, a ...interface{}) { fail(sig+phase, f, a...) }
 			for _, name := range []string{"auth", "pos"} {
 				for k := range keyset[name] {
+					for _, neg := range []int64{-1, -7} {
+						for _, prove := range []bool{false, true} {
+							atomic.AddInt64(&st.queries, 1)
+							if res := d.App.Query(abci.RequestQuery{Path: "/store/" + name + "/key", Data: []byte(k), Height: neg, Prove: prove}); res.Value != nil || (res.Proof != nil && len(res.Proof.Ops) > 0) {
+								fail("negative-height-served", "store %s key %X height %d prove=%v: value %X / proof returned (response height %d)", name, k, neg, prove, res.Value, res.Height)
+							}
+						}
+					}
 					for height := int64(0); height <= latest+1; height++ {
 						for _, prove := range []bool{false, true} {
 							atomic.AddInt64(&st.queries, 1)
